@@ -164,6 +164,15 @@ func wrEvent(id string, in *brec, dest string) {
 	if err != nil {
 		return // URL the harness itself cannot parse: not a case
 	}
+	// Bundle.Validate (what gen-bundle calls before writing): the primary URL, if any, names one of the exchanges
+	ev["valerr"] = func() (bad bool) {
+		defer func() {
+			if rec := recover(); rec != nil {
+				bad = true
+			}
+		}()
+		return b.Validate() != nil
+	}()
 	file, count, werr, pan := writeBundle(b, dest)
 	ev["werr"], ev["wpanic"], ev["count"] = werr != nil, pan, count
 	ev["file"], ev["verdict"], ev["b2"], ev["file2"], ev["file3"] = []int{}, "error", emptyB(), []int{}, []int{}
@@ -287,7 +296,9 @@ func bundleGen(args []string) error {
 			}
 			// rare but representable header maps: names that collide once lower-cased (with other names around them, so that
 			// the colliding entries need not be neighbours), a literal ":status", an empty name
-			switch r.Intn(14) {
+			switch r.Intn(16) {
+			case 14, 15:
+				e.Hdrs = append(e.Hdrs, hent{N: ints([]byte("X-Padded")), Vs: [][]int{ints([]byte([]string{" leading", "trailing ", "\ttab\t", " ", "in ner"}[r.Intn(5)]))}})
 			case 0:
 				e.Hdrs = append(e.Hdrs, hent{N: ints([]byte("X-Test")), Vs: [][]int{ints([]byte("a"))}}, hent{N: ints([]byte("x-test")), Vs: [][]int{ints([]byte("b"))}},
 					hent{N: ints([]byte("A-First")), Vs: [][]int{ints([]byte("1"))}}, hent{N: ints([]byte("Y-Between")), Vs: [][]int{ints([]byte("2"))}}, hent{N: ints([]byte("Zz-Last")), Vs: [][]int{ints([]byte("3"))}})
@@ -340,15 +351,30 @@ func bundleGen(args []string) error {
 			}
 			rec(0, nil)
 			r.Shuffle(len(keys), func(a, c int) { keys[a], keys[c] = keys[c], keys[a] })
-			switch r.Intn(4) {
+			twice := -1
+			switch r.Intn(6) {
 			case 0: // incomplete
 				keys = keys[1:]
-			case 1: // overlapping
+			case 1: // overlapping: two representations claim one key
 				keys = append(keys, keys[0])
+			case 2: // overlapping: ONE representation names its key twice
+				twice = r.Intn(len(keys))
+			case 3: // one representation covers two keys (a list of keys), the rest one each
+				twice = -2
 			}
 			for ki, k := range keys {
+				vk := strings.Join(k, ";")
+				if ki == twice {
+					vk = vk + ", " + vk
+				}
+				if twice == -2 && ki == 0 && len(keys) > 1 {
+					vk = vk + ", " + strings.Join(keys[1], ";")
+				}
+				if twice == -2 && ki == 1 {
+					continue
+				}
 				b.Exs = append(b.Exs, bex{URL: ints([]byte("https://v.test/variants")), Status: 200, Hdrs: []hent{
-					{N: ints([]byte("Variant-Key")), Vs: [][]int{ints([]byte(strings.Join(k, ";")))}},
+					{N: ints([]byte("Variant-Key")), Vs: [][]int{ints([]byte(vk))}},
 					{N: ints([]byte("Variants")), Vs: [][]int{ints([]byte(variants))}}}, Body: ints([]byte(fmt.Sprintf("representation %d %s", ki, strings.Join(k, "/"))))})
 			}
 		}
